@@ -118,9 +118,9 @@ pub open spec fn validated8181(a: RepositoryAccessProxy, h: PublisherHandle, cms
 def build():
     U = Unit('c12_rfc8181', 'C12', 'RFC 8181: processing requires a CMS validated under the named publisher\'s registered ID key; the delta is jailed to that publisher\'s base URI')
     prelude.strings(U)
-    for t in ['PublisherHandle', 'Base64', 'Hash', 'PublicKey', 'MyHandle']:
+    for t in ['PublisherHandle', 'Base64', 'Hash', 'PublicKey', 'MyHandle', 'PublicationCms']:
         U.opaque(t, 'Clone')
-    for t in ['Bytes', 'KrillRuntime', 'KrillSigner', 'CmsLogger', 'LogDir', 'PublicationCms', 'PubError', 'SignerError', 'KeyIdentifier', 'ListReply', 'PublishDelta',
+    for t in ['Bytes', 'KrillRuntime', 'KrillSigner', 'CmsLogger', 'LogDir', 'PubError', 'SignerError', 'KeyIdentifier', 'ListReply', 'PublishDelta',
               'RepositoryContentProxy', 'RrdpUpdatesConfig', 'RepositoryAccess', 'TaskQueue', 'Timestamp']:
         U.opaque(t, '')
     U.outside(OUT)
